@@ -2,7 +2,7 @@ import NixModel.Lemmas.C04Graph
 import NixModel.Store.C04Ext
 
 /-!
-# C04 — named children survive `deleteAll` when their target keeps its place
+# C04 — named children survive `deleteObjs` when their target keeps its place
 
 Used for the dimension descriptors of `Store/C04Ext` (`array/dimensions/<n>/link`).
 -/
@@ -29,12 +29,12 @@ theorem find?_filter_of_keep {α : Type} (l : List α) (p q : α → Bool) (x : 
       · rw [List.find?_cons, hq]; exact ih h
       · exact ih h
 
-/-- a child whose target carries none of the deleted ids is still that child afterwards -/
-theorem child?_deleteAll_of_keep (g : Graph) (ids : List String) (k : Nat) (name : String) (t : Nat)
-    (h : g.child? k name = some t) (hk : doomed g ids t = false) :
-    (g.deleteAll ids).child? k name = some t := by
+/-- a child whose target is none of the deleted objects is still that child afterwards -/
+theorem child?_deleteObjs_of_keep (g : Graph) (ks : List Nat) (k : Nat) (name : String) (t : Nat)
+    (h : g.child? k name = some t) (hk : doomed ks t = false) :
+    (g.deleteObjs ks).child? k name = some t := by
   unfold Graph.child? at h ⊢
-  rw [deleteAll_links]
+  rw [deleteObjs_links]
   cases hf : (g.links k).find? (fun l => l.1 == name) with
   | none => simp [hf] at h
   | some l =>
@@ -42,18 +42,18 @@ theorem child?_deleteAll_of_keep (g : Graph) (ids : List String) (k : Nat) (name
     rw [find?_filter_of_keep _ _ _ l hf (by unfold keepLink; rw [h, hk]; rfl)]
     simp [h]
 
-/-- the `link` group of a dimension descriptor is found again after `delete_all(ids)` whenever the
-descriptor groups themselves carry none of the ids (they carry no entity id of an array, frame, …) -/
-theorem dimLinkGroup_deleteAll (g : Graph) (ids : List String) (arr n ds d lk : Nat)
+/-- the `link` group of a dimension descriptor is found again after `delete_all(objs)` whenever the
+descriptor groups themselves are none of the objects (they are not entities: no container yields them) -/
+theorem dimLinkGroup_deleteObjs (g : Graph) (ks : List Nat) (arr n ds d lk : Nat)
     (h1 : g.child? arr "dimensions" = some ds) (h2 : g.child? ds (toString n) = some d)
     (h3 : g.child? d "link" = some lk)
-    (k1 : doomed g ids ds = false) (k2 : doomed g ids d = false) (k3 : doomed g ids lk = false) :
-    dimLinkGroup (g.deleteAll ids) arr n = some lk := by
+    (k1 : doomed ks ds = false) (k2 : doomed ks d = false) (k3 : doomed ks lk = false) :
+    dimLinkGroup (g.deleteObjs ks) arr n = some lk := by
   unfold dimLinkGroup
-  rw [child?_deleteAll_of_keep g ids arr _ ds h1 k1]
+  rw [child?_deleteObjs_of_keep g ks arr _ ds h1 k1]
   simp only [Option.bind_some]
-  rw [child?_deleteAll_of_keep g ids ds _ d h2 k2]
+  rw [child?_deleteObjs_of_keep g ks ds _ d h2 k2]
   simp only [Option.bind_some]
-  exact child?_deleteAll_of_keep g ids d _ lk h3 k3
+  exact child?_deleteObjs_of_keep g ks d _ lk h3 k3
 
 end Nix.Store.C04
